@@ -459,14 +459,20 @@ func (Scenario) Run(c choice.Chooser, opt sim.Options) (res sim.Result) {
 			}
 			hist = append(hist, fmt.Sprintf("%s -> %s executed=%v", what, got, w.log))
 			res.Count("op:read", 1)
-			if panicked != mustPanic {
-				return violate("stale-read", fmt.Sprintf("%s: panicked=%v, but evaluating the current graph from scratch panics=%v", what, panicked, mustPanic))
+			// The property does not say how a panicking processor surfaces
+			// (the pinned tree lets the panic through; recovering it into
+			// an error value would be just as legitimate): when the
+			// from-scratch evaluation panics, neither the outcome nor the
+			// value of this read is judged. A read that panics although
+			// nothing in its cone does is a violation.
+			if panicked && !mustPanic {
+				return violate("stale-read", fmt.Sprintf("%s panicked although no processor in its cone rejects its current input (a fault that has been cleared is still served)", what))
 			}
 			if changedSinceRead && w.depth(i) >= 2 {
 				nontrivial = true
 			}
 			changedSinceRead = false
-			if !panicked && got != want {
+			if !panicked && !mustPanic && got != want {
 				return violate("stale-read", fmt.Sprintf("%s returned %q, evaluating the current graph from scratch gives %q", what, got, want))
 			}
 			seen := map[int]bool{}
@@ -481,8 +487,10 @@ func (Scenario) Run(c choice.Chooser, opt sim.Options) (res sim.Result) {
 			}
 			for x := range seen {
 				if w.panics(x) {
-					// started, aborted by the panic: not an execution, the
-					// node stays due
+					// started and aborted by the panic, or recovered by the
+					// implementation: either way not judged; the node stays
+					// due and its version is taken as found
+					w.nodes[x].execs = w.real[x].Version()
 					continue
 				}
 				w.nodes[x].dirty = false
